@@ -161,6 +161,13 @@ def run(prog: Program, rep, thorough: bool) -> None:
     for r in rets:
         bad = [s for s in states[r.id] if not (s[1] and s[2] == 'F')]
         val_ok = 'self.barrel_elevation' in {norm(x) for x in ast.walk(r.ast) if isinstance(x, ast.Attribute)}
+        if not val_ok and isinstance(r.ast.value, ast.Name):
+            # returned through a local: every definition reaching the return wraps the elevation, and the state facts at
+            # the return (elevation unchanged since the last measurement) cover the stretch between definition and return
+            dn = [cfg.nodes[i] for i in deps.rd[r.id].get(r.ast.value.id, set())]
+            val_ok = bool(dn) and all(isinstance(d_.ast, (ast.Assign, ast.AnnAssign)) and d_.ast.value is not None
+                                      and 'self.barrel_elevation' in {norm(x) for x in ast.walk(d_.ast.value) if isinstance(x, ast.Attribute)}
+                                      and not any(isinstance(x, ast.BinOp) for x in ast.walk(d_.ast.value)) for d_ in dn)
         if bad:
             s = bad[0]
             why = []
